@@ -1,2 +1,419 @@
--- C02 property theorems (to be written)
-import Nq.Basic
+/-
+  C02 — Every queue entry is always in a documented state under any interleaving.
+
+  Model: `Nq.QueueSys` (any number of qmail-queue instances, qmail-send with its qmail-clean, further
+  qmail-send instances, the clock, crashes; one event per system call).  Invariant and its
+  preservation: `Nq/Lemmas/QueueSysInv.lean`.  Tie: `harness/c02_queuesys.c` runs the real
+  qmail-queue (up to three instances), qmail-send (two instances) and qmail-clean as threads under
+  qsim with a schedule decision before every queue-directory system call, faults, kills, clock jumps,
+  crashes and restarts; `Drv/C02.lean` abstracts each trace to `QueueSys.Ev`, replays it through
+  `QueueSys.accept`, and evaluates the predicates below on the concrete directory contents.
+
+  "Reachable" = reached from the empty queue by any accepted event sequence: no bound on the number of
+  messages, instances, steps, restarts or crashes.
+-/
+import Nq.QueueSys
+import Nq.Lemmas.QueueSysInv
+
+namespace Nq.Props.C02
+open Nq Nq.QueueSys
+
+def Reach (s : St) : Prop := ∃ es, acceptAll {} es = some s
+
+theorem reach_inv {s : St} (h : Reach s) : Inv s := by
+  obtain ⟨es, he⟩ := h
+  exact inv_acceptAll {} s es inv_init he
+
+theorem reach_step {s s' : St} {e : Ev} (h : Reach s) (ha : accept s e = some s') : Reach s' := by
+  obtain ⟨es, he⟩ := h
+  refine ⟨es ++ [e], ?_⟩
+  have : ∀ (t : St) (l : List Ev), acceptAll t l = some s → acceptAll t (l ++ [e]) = some s' := by
+    intro t l
+    induction l generalizing t with
+    | nil => intro h0; simp [acceptAll] at h0; subst h0; simp [acceptAll, ha]
+    | cons x xs ih =>
+      intro h0
+      simp only [acceptAll, List.cons_append] at h0 ⊢
+      split at h0
+      next t1 h1 => exact ih t1 h0
+      · cases h0
+  exact this {} es he
+
+/-- **States.** At every instant - after any interleaving of any number of injectors with the daemon
+and its cleaner, any clock behaviour, and any number of crashes and restarts at any instant - every
+message number is in one of the states S1-S5 of INTERNALS.md. -/
+theorem C02_states {s : St} (h : Reach s) (n : Nat) : (s.fl n).documented = true :=
+  (reach_inv h).doc n
+
+/-- **Name = inode.** If mess/n exists, it names inode n. -/
+theorem C02_inode {s : St} (h : Reach s) (n : Nat) (hm : (s.fl n).mess = true) : s.messIno n = n :=
+  (reach_inv h).ino n hm
+
+/-- **Numbers are not shared (1).** When qmail-queue links its pid file to mess/m, message m is in
+state S1: none of the seven files exists, so no other message has that number. -/
+theorem C02_unique_link {s s' : St} (h : Reach s) (i m : Nat) (ha : accept s (.iLinkMess i m) = some s') :
+    s.fl m = {} ∧ s'.messIno m = m := by
+  have hi := reach_inv h
+  simp only [accept] at ha
+  split at ha
+  next t0 n hpc =>
+    split at ha
+    next hg =>
+      obtain ⟨hal, rfl, hp, hm⟩ := hg
+      cases ha
+      exact ⟨doc_nomess (hi.doc m) hm, by simp⟩
+    · cases ha
+  all_goals cases ha
+
+/-- **Numbers are not shared (2).** Two running qmail-queue instances never work on the same number. -/
+theorem C02_unique_owners {s : St} (h : Reach s) (i j n : Nat) (hij : i ≠ j)
+    (hi : (s.inj i).num = some n) (hj : (s.inj j).num = some n)
+    (ai : s.alive (s.inj i).t0 = true) (aj : s.alive (s.inj j).t0 = true) : False :=
+  (reach_inv h).distinct i j n hij hi hj ai aj
+
+/-- a running qmail-queue's number carries exactly the files its control point says (S1, S2 or S3) -/
+theorem C02_owner_state {s : St} (h : Reach s) (i n : Nat) (hi : (s.inj i).num = some n)
+    (ai : s.alive (s.inj i).t0 = true) : s.fl n = (s.inj i).flags :=
+  ((reach_inv h).own i n hi ai).1
+
+/-! ### documented moves only -/
+
+/-- which file of which message an event creates (`true`) or removes (`false`) -/
+def touch : Ev → Option (Nat × File × Bool)
+  | .iLinkMess _ m => some (m, .mess, true)
+  | .iCreatIntd _ m => some (m, .intd, true)
+  | .iLinkTodo _ m => some (m, .todo, true)
+  | .iUnIntd _ m => some (m, .intd, false)
+  | .iUnMess _ m => some (m, .mess, false)
+  | .dUnlink n f => some (n, f, false)
+  | .dCreat n f => some (n, f, true)
+  | .cUnlink n f _ => some (n, f, false)
+  | _ => none
+
+/-- every event changes at most one file of one message, the one it names -/
+theorem step_touch (s s' : St) (e : Ev) (ha : accept s e = some s') :
+    s'.fl = match touch e with
+            | none => s.fl
+            | some (n, f, b) => upd s.fl n ((s.fl n).set f b) := by
+  cases e with
+  | tick t => simp only [accept] at ha; split at ha <;> cases ha; rfl
+  | iStart i d => simp only [accept] at ha; split at ha <;> cases ha; rfl
+  | iOpenPid i n => simp only [accept] at ha; (repeat' split at ha) <;> cases ha; rfl
+  | iLinkMess i m =>
+    simp only [accept] at ha; (repeat' split at ha) <;> try cases ha
+    rename_i hg; obtain ⟨_, rfl, _⟩ := hg; rfl
+  | iUnlinkPid i => simp only [accept] at ha; (repeat' split at ha) <;> cases ha; rfl
+  | iCreatIntd i m =>
+    simp only [accept] at ha; (repeat' split at ha) <;> try cases ha
+    rename_i hg; obtain ⟨_, rfl, _⟩ := hg; rfl
+  | iLinkTodo i m =>
+    simp only [accept] at ha; (repeat' split at ha) <;> try cases ha
+    rename_i hg; obtain ⟨_, rfl, _⟩ := hg; rfl
+  | iUnIntd i m =>
+    simp only [accept] at ha; (repeat' split at ha) <;> try cases ha
+    rename_i hg; obtain ⟨_, rfl, _⟩ := hg; rfl
+  | iUnMess i m =>
+    simp only [accept] at ha; (repeat' split at ha) <;> try cases ha
+    all_goals (rename_i hg; obtain ⟨_, rfl, _⟩ := hg; rfl)
+  | iDie i => simp only [accept] at ha; cases ha; rfl
+  | dStart => simp only [accept] at ha; split at ha <;> cases ha; rfl
+  | dRefused => simp only [accept] at ha; split at ha <;> cases ha; rfl
+  | dDie => simp only [accept] at ha; split at ha <;> cases ha; rfl
+  | dObs n f p => simp only [accept] at ha; (repeat' split at ha) <;> cases ha <;> rfl
+  | dOpenTodo n => simp only [accept] at ha; split at ha <;> cases ha; rfl
+  | dAbortTodo => simp only [accept] at ha; split at ha <;> cases ha; rfl
+  | dUnlink n f =>
+    simp only [accept] at ha; (repeat' split at ha) <;> try cases ha
+    all_goals first | rfl | (rename_i hg; subst hg; rfl)
+  | dCreat n f =>
+    simp only [accept] at ha; (repeat' split at ha) <;> try cases ha
+    all_goals first | rfl | (rename_i hg; obtain ⟨rfl, _⟩ := hg; rfl)
+  | dReq b n =>
+    cases b <;> simp only [accept] at ha <;> (repeat' split at ha) <;> cases ha <;> rfl
+  | cUnlink n f ok =>
+    simp only [accept] at ha; (repeat' split at ha) <;> try cases ha
+    all_goals (rename_i hg; obtain ⟨rfl, _⟩ := hg; rfl)
+  | cDone plus => simp only [accept] at ha; (repeat' split at ha) <;> cases ha <;> rfl
+  | cUnlinkPid n => simp only [accept] at ha; split at ha <;> cases ha; rfl
+  | crash => simp only [accept] at ha; cases ha; rfl
+
+theorem forall_file (p : File → Prop) :
+    (∀ x, p x) ↔ p .mess ∧ p .intd ∧ p .todo ∧ p .info ∧ p .loc ∧ p .rem ∧ p .bounce :=
+  ⟨fun h => ⟨h _, h _, h _, h _, h _, h _, h _⟩, fun ⟨h1, h2, h3, h4, h5, h6, h7⟩ x => by cases x <;> assumption⟩
+
+instance (p : File → Prop) [DecidablePred p] : Decidable (∀ x, p x) := decidable_of_iff _ (forall_file p).symm
+
+theorem move_ok : ∀ (a b c d e g k : Bool) (x : File) (v : Bool),
+    (Flags.mk a b c d e g k).documented = true → ((Flags.mk a b c d e g k).set x v).documented = true →
+    (x = .todo → v = true → (Flags.mk a b c d e g k).isS3 = true) →
+    (x = .todo → v = false → (Flags.mk a b c d e g k).info = true) →
+    (x = .info → v = true → (Flags.mk a b c d e g k).todo = true) →
+    allowedMove (Flags.mk a b c d e g k).cls ((Flags.mk a b c d e g k).set x v).cls = true := by
+  decide
+
+/-- qmail-send itself neither creates nor removes todo/ entries -/
+theorem daemon_no_todo (s s' : St) (n : Nat) :
+    accept s (.dCreat n .todo) ≠ some s' ∧ accept s (.dUnlink n .todo) ≠ some s' := by
+  constructor <;> intro ha <;> simp only [accept] at ha <;> split at ha <;> try cases ha
+  all_goals
+    cases hm : s.mode <;> simp only [hm] at ha <;> try cases ha
+  all_goals
+    rename_i m b; cases b <;> simp only at ha <;> cases ha
+
+/-- todo/m is created only by the qmail-queue that owns m, from S3 -/
+theorem todo_add (s s' : St) (e : Ev) (hi : Inv s) (ha : accept s e = some s') (m : Nat)
+    (ht : touch e = some (m, .todo, true)) : (s.fl m).isS3 = true := by
+  cases e with
+  | iLinkTodo i m' =>
+    simp only [touch, Option.some.injEq, Prod.mk.injEq, and_true] at ht; subst ht
+    simp only [accept] at ha
+    split at ha
+    next t0 n' hpc =>
+      split at ha
+      next hg =>
+        obtain ⟨hal, rfl, _⟩ := hg
+        have := (hi.own i m' (by simp [hpc, IPc.num]) (by simpa [hpc, IPc.t0] using hal)).1
+        rw [this]; simp [hpc, IPc.flags]; decide
+      · cases ha
+    all_goals cases ha
+  | dCreat n f =>
+    simp only [touch, Option.some.injEq, Prod.mk.injEq, and_true] at ht
+    obtain ⟨rfl, rfl⟩ := ht
+    exact absurd ha (daemon_no_todo s s' n).1
+  | _ => simp [touch] at ht
+
+/-- todo/m is removed only by qmail-clean, after info/m exists -/
+theorem todo_del (s s' : St) (e : Ev) (hi : Inv s) (ha : accept s e = some s') (m : Nat)
+    (ht : touch e = some (m, .todo, false)) : (s.fl m).info = true := by
+  cases e with
+  | dUnlink n f =>
+    simp only [touch, Option.some.injEq, Prod.mk.injEq, and_true] at ht
+    obtain ⟨rfl, rfl⟩ := ht
+    exact absurd ha (daemon_no_todo s s' n).2
+  | cUnlink n f ok =>
+    simp only [touch, Option.some.injEq, Prod.mk.injEq, and_true] at ht
+    obtain ⟨rfl, rfl⟩ := ht
+    simp only [accept] at ha
+    have hmi := hi.mode
+    cases hm : s.mode <;> simp only [hm] at ha <;> try cases ha
+    rw [ModeInv, hm] at hmi
+    split at ha
+    next hg => obtain ⟨rfl, _⟩ := hg; exact hmi.2.2.2.2.1
+    · cases ha
+  | _ => simp [touch] at ht
+
+/-- info/m is created only by todo_do, while todo/m exists -/
+theorem info_add (s s' : St) (e : Ev) (hi : Inv s) (ha : accept s e = some s') (m : Nat)
+    (ht : touch e = some (m, .info, true)) : (s.fl m).todo = true := by
+  cases e with
+  | dCreat n f =>
+    simp only [touch, Option.some.injEq, Prod.mk.injEq, and_true] at ht
+    obtain ⟨rfl, rfl⟩ := ht
+    simp only [accept] at ha
+    have hmi := hi.mode
+    split at ha
+    · cases hm : s.mode <;> simp only [hm] at ha <;> try cases ha
+      rename_i m' b
+      rw [ModeInv, hm] at hmi
+      cases b <;> simp only at ha
+      · split at ha
+        next hg => obtain ⟨rfl, _⟩ := hg; exact hmi.2.2.1
+        · cases ha
+      · cases ha
+    · cases ha
+  | _ => simp [touch] at ht
+
+/-- **Documented moves only.** Every step of every actor leaves every message where it was or moves
+it along an arrow of INTERNALS.md sections 3-6 (S1→S2→S3→S4→S5→S2→S1, S3→S2); in particular files
+of a message disappear only in the documented order. -/
+theorem C02_moves {s s' : St} {e : Ev} (h : Reach s) (ha : accept s e = some s') (n : Nat) :
+    allowedMove (s.fl n).cls (s'.fl n).cls = true := by
+  have hi := reach_inv h
+  have hi' := reach_inv (reach_step h ha)
+  have hd := hi.doc n
+  have hd' := hi'.doc n
+  have hst := step_touch s s' e ha
+  have hstay : ∀ f : Flags, f.documented = true → allowedMove f.cls f.cls = true := by
+    intro ⟨a, b, c, d, e, g, k⟩; revert a b c d e g k; decide
+  cases ht : touch e with
+  | none => rw [ht] at hst; rw [hst]; exact hstay _ hd
+  | some t =>
+    obtain ⟨m, x, v⟩ := t
+    rw [ht] at hst
+    by_cases hn : n = m
+    · subst hn
+      have hfl : s'.fl n = (s.fl n).set x v := by rw [hst]; simp
+      rw [hfl] at hd' ⊢
+      have h1 : x = .todo → v = true → (s.fl n).isS3 = true := by
+        intro hx hv; subst hx hv; exact todo_add s s' e hi ha n ht
+      have h2 : x = .todo → v = false → (s.fl n).info = true := by
+        intro hx hv; subst hx hv; exact todo_del s s' e hi ha n ht
+      have h3 : x = .info → v = true → (s.fl n).todo = true := by
+        intro hx hv; subst hx hv; exact info_add s s' e hi ha n ht
+      rcases hf : s.fl n with ⟨a, b, c, d, e', g, k⟩
+      rw [hf] at hd hd' h1 h2 h3
+      exact move_ok a b c d e' g k x v hd hd' h1 h2 h3
+    · have : s'.fl n = s.fl n := by rw [hst]; simp [upd, hn]
+      rw [this]; exact hstay _ hd
+
+/-- **Order of removal (bounce record).** qmail-send removes bounce/n only when local/n and remote/n
+are gone. -/
+theorem C02_order_bounce {s s' : St} (h : Reach s) (n : Nat) (ha : accept s (.dUnlink n .bounce) = some s') :
+    (s.fl n).loc = false ∧ (s.fl n).rem = false ∧ (s.fl n).todo = false ∧ (s.fl n).info = true := by
+  have hi := reach_inv h
+  simp only [accept] at ha
+  split at ha
+  · cases hm : s.mode <;> simp only [hm] at ha <;> try cases ha
+    · split at ha
+      next hg =>
+        obtain ⟨hcur, hl, hr, ht, hip⟩ := hg
+        have h1 := hi.kn.locAbs hl; have h2 := hi.kn.remAbs hr; have h4 := hi.kn.infoPres hip
+        have h3 := hi.kn.todoAbs ht (Or.inl h4)
+        rw [hcur] at h1 h2 h3 h4
+        exact ⟨h1, h2, h3, h4⟩
+      · cases ha
+  · cases ha
+
+/-- **Order of removal (info).** Outside re-preprocessing (todo/n absent) qmail-send removes info/n only
+when local/n, remote/n and bounce/n are gone. -/
+theorem C02_order_info {s s' : St} (h : Reach s) (n : Nat) (ha : accept s (.dUnlink n .info) = some s')
+    (hnt : (s.fl n).todo = false) :
+    (s.fl n).loc = false ∧ (s.fl n).rem = false ∧ (s.fl n).bounce = false := by
+  have hi := reach_inv h
+  simp only [accept] at ha
+  split at ha
+  · cases hm : s.mode <;> simp only [hm] at ha <;> try cases ha
+    · split at ha
+      next hg =>
+        obtain ⟨hcur, hl, hr, ht, hip, hb⟩ := hg
+        have h1 := hi.kn.locAbs hl; have h2 := hi.kn.remAbs hr; have h3 := hi.kn.bounceAbs hb
+        rw [hcur] at h1 h2 h3
+        exact ⟨h1, h2, h3⟩
+      · cases ha
+    · rename_i m b
+      have hmi := hi.mode; rw [ModeInv, hm] at hmi
+      cases b <;> simp only at ha
+      · split at ha
+        next hg => subst hg; rw [hmi.2.2.1] at hnt; cases hnt
+        · cases ha
+      · cases ha
+  · cases ha
+
+/-- **Order of removal (message body last).** mess/n is removed only when nothing else of n exists. -/
+theorem C02_order_mess {s s' : St} {e : Ev} (h : Reach s) (ha : accept s e = some s') (n : Nat)
+    (hm : (s.fl n).mess = true) (hm' : (s'.fl n).mess = false) : s'.fl n = {} :=
+  doc_nomess ((reach_inv (reach_step h ha)).doc n) hm'
+
+/-- **Stale leftovers.** qmail-send asks qmail-clean to remove intd/n and mess/n ("foop/n") only
+(a) right after it removed info/n itself (elimination of a finished message), or (b) when inode n is
+more than OSSIFIED = 36 hours old and it saw that neither info/n nor todo/n exists - and these facts
+still hold at that moment; in both cases no running qmail-queue is working on n. -/
+theorem C02_stale {s s' : St} (h : Reach s) (n : Nat) (ha : accept s (.dReq false n) = some s') :
+    (s.fl n).info = false ∧ (s.fl n).todo = false ∧ noLiveOwner s n ∧
+    (s.k.unlinkedInfo = true ∨ s.atime n + 36 * 3600 < s.now) := by
+  have hi := reach_inv h
+  simp only [accept] at ha
+  split at ha
+  all_goals first | cases ha | skip
+  split at ha
+  next hg =>
+    obtain ⟨hup, hcur, hc⟩ := hg
+    rcases hc with hu | ⟨hmp, hia, hta, hst⟩
+    · have := hi.kn.unlinkedInfo hu
+      rw [hcur] at this
+      rw [this.1]; exact ⟨rfl, rfl, this.2, Or.inl hu⟩
+    · have h2 := hi.kn.infoAbs hia; have h3 := hi.kn.todoAbs hta
+      rw [hcur] at h2 h3
+      refine ⟨h2, h3 (Or.inr hst), noLiveOwner_of s hi n (Or.inr (Or.inr hst)), Or.inr ?_⟩
+      have : OSSIFIED = 36 * 3600 := by decide
+      simpa [St.stale, this] using hst
+  · cases ha
+
+/-- while qmail-clean works on "foop/n" no running qmail-queue owns n, and n has neither info nor todo -/
+theorem C02_stale_window {s : St} (h : Reach s) (n : Nat) (hm : s.mode = .foopC1 n ∨ s.mode = .foopC2 n) :
+    noLiveOwner s n ∧ (s.fl n).info = false ∧ (s.fl n).todo = false := by
+  have hmi := (reach_inv h).mode
+  rcases hm with hm | hm <;> rw [ModeInv, hm] at hmi
+  · exact ⟨hmi.2.2.2.2, hmi.2.2.2.1, hmi.2.2.1⟩
+  · rw [hmi.2.1]; exact ⟨hmi.2.2, rfl, rfl⟩
+
+/-- the injector's suicide timer fires well before anything of it can be considered stale -/
+theorem C02_timer : DEATH < OSSIFIED ∧ OSSIFIED = 36 * 3600 ∧ Nq.Gen.OSSIFIED_clean = Nq.Gen.OSSIFIED_send := by decide
+
+/-- **One daemon.** A qmail-send instance gets the lock only if no other holds it; one that finds it
+taken changes nothing at all. -/
+theorem C02_mutex (s s' : St) :
+    (accept s .dStart = some s' → s.up = false) ∧ (accept s .dRefused = some s' → s.up = true ∧ s' = s) := by
+  constructor
+  · intro ha; simp only [accept] at ha; split at ha
+    · assumption
+    · cases ha
+  · intro ha; simp only [accept] at ha; split at ha
+    · next hu => cases ha; exact ⟨hu, rfl⟩
+    · cases ha
+
+/-- every queue-changing event of the daemon and its cleaner needs the lock to be held -/
+theorem C02_mutex_needed (s s' : St) (h : Reach s) (e : Ev) (ha : accept s e = some s')
+    (hd : match e with
+          | .dUnlink _ _ | .dCreat _ _ | .cUnlink _ _ _ | .dReq _ _ | .dOpenTodo _ => True
+          | _ => False) : s.up = true := by
+  have hi := reach_inv h
+  cases e <;> simp only at hd <;> simp only [accept] at ha
+  · split at ha
+    · next hg => exact hg.1
+    · cases ha
+  · split at ha
+    · next hg => exact hg.1
+    · cases ha
+  · split at ha
+    · assumption
+    · cases ha
+  · rename_i b n
+    cases b <;> simp only at ha <;> split at ha
+    all_goals first | cases ha | skip
+    · split at ha
+      · next hg => exact hg.1
+      · cases ha
+    · split at ha
+      · next hg => exact hg.2
+      · cases ha
+  · have hmi := hi.mode
+    split at ha
+    all_goals first | cases ha | skip
+    all_goals
+      rename_i hm
+      rw [ModeInv, hm] at hmi
+      exact hmi.1
+
+/-- **Crash.** A crash (every process dies at an arbitrary instant) changes no file name; the state it
+leaves is reachable, so everything above holds after it and after any restart. -/
+theorem C02_crash {s : St} (h : Reach s) :
+    ∃ s', accept s .crash = some s' ∧ s'.fl = s.fl ∧ Reach s' ∧ s'.up = false ∧
+      ∀ i, (s'.inj i).num = none := by
+  obtain ⟨s', hacc, h1, h2, h3⟩ : ∃ s', accept s .crash = some s' ∧ s'.fl = s.fl ∧ s'.up = false ∧
+      ∀ i, s'.inj i = crashPc (s.inj i) := ⟨_, rfl, rfl, rfl, fun _ => rfl⟩
+  refine ⟨s', hacc, h1, reach_step h hacc, h2, ?_⟩
+  intro i; rw [h3]; cases s.inj i <;> simp [crashPc, IPc.num]
+
+/-! ### non-vacuity: a complete life of message 7 (and a refused second daemon, a stale leftover 9) is accepted -/
+
+def life : List Ev :=
+  [ .dStart, .dRefused, .iStart 0 86400, .iOpenPid 0 7, .iLinkMess 0 7, .iUnlinkPid 0, .iCreatIntd 0 7, .iLinkTodo 0 7,
+    .iStart 1 86400, .iOpenPid 1 9, .iLinkMess 1 9, .iUnlinkPid 1, .iCreatIntd 1 9, .iDie 1,
+    .dOpenTodo 7, .dObs 7 .loc false, .dObs 7 .rem false, .dObs 7 .info false, .dCreat 7 .info, .dCreat 7 .loc,
+    .dReq true 7, .cUnlink 7 .intd true, .cUnlink 7 .todo true, .cDone true,
+    .dCreat 7 .bounce, .dUnlink 7 .loc,
+    .dObs 7 .loc false, .dObs 7 .rem false, .dObs 7 .todo false, .dObs 7 .info true,
+    .dUnlink 7 .bounce, .dUnlink 7 .info, .dReq false 7, .cUnlink 7 .intd false, .cUnlink 7 .mess true, .cDone true,
+    .tick 200000, .dObs 9 .mess true, .dObs 9 .info false, .dObs 9 .todo false,
+    .dReq false 9, .cUnlink 9 .intd true, .cUnlink 9 .mess true, .cDone true, .crash, .dStart ]
+
+example : (acceptAll {} life).isSome = true := by decide
+example : ((acceptAll {} life).map fun s => ((s.fl 7).isS1, (s.fl 9).isS1, s.up)) = some (true, true, true) := by decide
+/-- the cleanup of leftover 9 is refused before it is 36 hours old -/
+example : (acceptAll {} ((life.take 36) ++ [.tick 100000, .dObs 9 .mess true, .dObs 9 .info false, .dObs 9 .todo false,
+    .dReq false 9])).isSome = false := by decide
+/-- removing info/7 while local/7 still exists is refused -/
+example : (acceptAll {} ((life.take 25) ++ [.dObs 7 .rem false, .dObs 7 .todo false, .dObs 7 .info true, .dUnlink 7 .info])).isSome = false := by decide
+
+end Nq.Props.C02
